@@ -93,13 +93,13 @@ def main():
             "level_note": note,
             "technique": tech,
         })
-    hooks = []
+    hooks = ["c59604a verif hook: let a harness decide when the BDAT delivery goroutine starts (hooks_verif.go, hooks_noverif.go, one call in conn.go)"]
     m = {
         "version": 1,
         "setup_cmd": "./check --build",
         "hooks": {
             "guard": "verif",
-            "enable": "go test -tags verif (passed by ./check to every build; no hook is currently needed - all oracles observe public API, the wire, Server.ErrorLog, runtime.Stack and the race detector)",
+            "enable": "go test -tags verif (passed by ./check to every build): enables smtp.SetVerifBdatStartHook, through which the harness parks the BDAT delivery goroutine on a gate before it calls the backend; every other oracle observes public API, the wire, Server.ErrorLog, runtime.Stack and the race detector",
             "baseline_off_cmd": "cd /repo && go test -vet=off -count=1 ./...",
             "source_commits": hooks,
             "add_only": True,
